@@ -986,7 +986,7 @@ def sym_sqrt(x):
             rn, rd = math.isqrt(fx.numerator), math.isqrt(fx.denominator)
             if rn * rn == fx.numerator and rd * rd == fx.denominator:
                 return Sym(z3.RealVal(Fraction(rn, rd)))
-    sq = _perfect_square(v)
+    sq = _perfect_square(v) if not SQRT_MODE["opaque"] else None
     if sq is not None:
         # sqrt(c * t^2) = sqrt(c) |t| for a rational square c: exact, no fresh variable
         c, t = sq
